@@ -2,7 +2,7 @@
    ExtrOcamlBasic only; Z, positive, nat stay the extracted inductive types.
    Append the functions of new formats to the list. *)
 From Coq Require Extraction ExtrOcamlBasic.
-From SV Require Import Lib.Base Model.WireBase Model.WireEth Model.WireArp Model.WireUdp Model.WireIpv4 Model.WireIpv6 Model.WireIcmpv4 Model.WireIcmpv6.
+From SV Require Import Lib.Base Model.WireBase Model.WireEth Model.WireArp Model.WireUdp Model.WireIpv4 Model.WireIpv6 Model.WireIcmpv4 Model.WireIcmpv6 Model.WireTcp.
 Extraction Language OCaml.
 Cd "../ocaml/gen".
 Extraction "wire_model.ml"
@@ -23,5 +23,10 @@ Extraction "wire_model.ml"
   icmpv4_header_len icmpv4_data icmpv4_verify_checksum icmpv4_parse icmpv4_buffer_len icmpv4_emit icmpv4_wf
   icmpv6_check_len icmpv6_msg_type icmpv6_msg_code icmpv6_checksum icmpv6_echo_ident icmpv6_echo_seq_no
   icmpv6_pkt_too_big_mtu icmpv6_param_problem_ptr icmpv6_header_len icmpv6_payload icmpv6_verify_checksum
-  icmpv6_parse icmpv6_buffer_len icmpv6_emit icmpv6_wf wb_delegated.
+  icmpv6_parse icmpv6_buffer_len icmpv6_emit icmpv6_wf wb_delegated
+  tcp_check_len tcp_src_port tcp_dst_port tcp_seq_number tcp_ack_number tcp_fin tcp_syn tcp_rst tcp_psh tcp_ack_
+  tcp_urg tcp_ece tcp_cwr tcp_ns tcp_header_len_ tcp_window_len tcp_checksum tcp_urgent_at tcp_options
+  tcp_payload_ tcp_segment_len tcp_options_summary tcp_selective_ack_permitted tcp_selective_ack_ranges
+  tcp_verify_checksum tcp_option_parse tcp_option_buffer_len tcp_option_emit
+  tcp_parse tcp_repr_header_len tcp_buffer_len tcp_emit tcp_wf.
 Cd "../../coq".
